@@ -184,6 +184,12 @@ class QLib(LibBase):
             return [(Num(p), s)]
         return None
 
+    def builtin(self, ex, name, args, kw, st, node):
+        # `from bisect import bisect_left` and a call by bare name: same model as bisect.bisect_left
+        if name in ("bisect_left", "bisect_right", "bisect"):
+            return self.call_opaque(ex, VOpaque("module:bisect"), name, args, kw, st, node)
+        return None
+
     def obj_attr(self, ex, base, attr, st, lineno):
         if attr == "_env":
             from pyvc.execute import EnvRef
